@@ -1,18 +1,22 @@
 package interp
 
-// Cooperative interleaving of two (or more) logical threads for verifrt.Interleave.
+// Cooperative scheduling of logical threads for verifrt.Interleave / verifrt.Threads.
 //
 // Each logical thread runs in its own goroutine, but only one of them runs at any time (a baton is handed over through
 // channels), so the single global engine is never used concurrently.  A thread can be pre-empted only immediately
-// before a synchronisation operation (Lock / Unlock / RLock / RUnlock of sync.Mutex / sync.RWMutex and the sync/atomic
-// read-modify-write operations); at each such point the scheduler picks, by a free symbolic choice, which of the
-// threads whose pending operation is enabled runs next.  All interleavings at that granularity are explored.  A state
-// where some thread is pending and none is enabled is reported as a deadlock.
+// before a synchronisation operation: Lock / Unlock / RLock / RUnlock of sync.Mutex / sync.RWMutex, sync/atomic
+// read-modify-write operations, sync.Map operations, WaitGroup Add / Done / Wait, a send or receive on a buffered
+// channel, and the start of a goroutine created by a `go` statement.  At each such point the scheduler picks, by a
+// free symbolic choice, which of the threads whose pending operation is enabled runs next.  All interleavings at that
+// granularity are explored, optionally bounded by the number of DELAYS (Emmi, Qadeer, Rakamaric, "Delay-bounded
+// scheduling", POPL 2011): the default scheduler lets the running thread continue while it can and otherwise takes the
+// next enabled thread in round-robin order; a delay skips the thread the default scheduler would run.  With
+// verifrt.DelayBound(k) every schedule reachable with at most k delays is explored (k < 0: every schedule).  A state
+// where some thread is unfinished and none is enabled is reported as a deadlock.
 
 import (
 	"fmt"
 	"go/token"
-	"runtime"
 )
 
 type lockState struct {
@@ -21,8 +25,9 @@ type lockState struct {
 }
 
 type schedOp struct {
-	kind string // lock, unlock, rlock, runlock, atomic, done, panic
+	kind string // start, lock, unlock, rlock, runlock, atomic, wgwait, send, recv, done, panic
 	mu   *value
+	ch   chan value
 	pv   any // panic value forwarded from a thread
 }
 
@@ -34,12 +39,17 @@ type schedThread struct {
 }
 
 type scheduler struct {
-	threads []*schedThread
-	report  chan *schedThread
-	locks   map[*value]*lockState
-	dead    chan struct{}
-	cur     *schedThread
-	nsched  int
+	threads    []*schedThread
+	report     chan *schedThread
+	locks      map[*value]*lockState
+	wgs        map[*value]int64
+	dead       chan struct{}
+	cur        *schedThread
+	last       *schedThread
+	nsched     int
+	preempts   int
+	maxPreempt int // < 0: unbounded
+	fr         *frame
 }
 
 func (s *scheduler) lock(mu *value) *lockState {
@@ -59,6 +69,12 @@ func (s *scheduler) enabled(t *schedThread) bool {
 		return l.writer == -1 && len(l.readers) == 0
 	case "rlock":
 		return s.lock(op.mu).writer == -1
+	case "wgwait":
+		return s.wgs[op.mu] <= 0
+	case "send":
+		return len(op.ch) < cap(op.ch)
+	case "recv":
+		return len(op.ch) > 0
 	default:
 		return true
 	}
@@ -72,80 +88,102 @@ func (s *scheduler) apply(t *schedThread) {
 	case "unlock":
 		l := s.lock(op.mu)
 		if l.writer != t.id {
-			panic(runtimeErr("sync: unlock of a mutex not locked by this thread"))
+			// Go allows unlocking from another goroutine; only an unlock of an unlocked mutex is fatal
+			if l.writer == -1 {
+				panic(runtimeErr("sync: unlock of unlocked mutex"))
+			}
 		}
 		l.writer = -1
 	case "rlock":
 		s.lock(op.mu).readers[t.id]++
 	case "runlock":
 		l := s.lock(op.mu)
-		if l.readers[t.id] == 0 {
-			panic(runtimeErr("sync: RUnlock of a mutex not read-locked by this thread"))
+		if len(l.readers) == 0 {
+			panic(runtimeErr("sync: RUnlock of unlocked RWMutex"))
 		}
-		l.readers[t.id]--
-		if l.readers[t.id] == 0 {
-			delete(l.readers, t.id)
+		if l.readers[t.id] > 0 {
+			l.readers[t.id]--
+			if l.readers[t.id] == 0 {
+				delete(l.readers, t.id)
+			}
+		} else {
+			for k := range l.readers {
+				l.readers[k]--
+				if l.readers[k] == 0 {
+					delete(l.readers, k)
+				}
+				break
+			}
 		}
 	}
 }
 
-// syncPoint is called by the lock / atomic intrinsics.  Outside Interleave it does nothing.
-func syncPoint(kind string, mu *value) {
+// syncPoint is called by the lock / atomic / channel intrinsics.  Outside a scheduling session it does nothing.
+func syncPoint(kind string, mu *value) { syncPointOp(&schedOp{kind: kind, mu: mu}) }
+
+func syncPointOp(op *schedOp) {
 	s := E.sched
 	if s == nil || s.cur == nil {
 		return
 	}
 	t := s.cur
-	t.pending = &schedOp{kind: kind, mu: mu}
+	t.pending = op
 	s.report <- t
 	select {
 	case <-t.grant:
 	case <-s.dead:
-		runtime.Goexit()
+		// the path was abandoned (violation, deadlock, end of the session): unwind this goroutine WITHOUT running the
+		// interpreted program's deferred calls (runFrame re-panics engine control flow untouched)
+		panic(pathAbort{"logical thread abandoned"})
 	}
 }
 
-func rtInterleave(fr *frame, a []value) value {
+// inSession reports whether the calling code runs as a logical thread of a scheduling session.
+func inSession() bool { return E.sched != nil && E.sched.cur != nil }
+
+func (s *scheduler) spawn(fn value, args []value) *schedThread {
+	t := &schedThread{id: len(s.threads), grant: make(chan struct{}), pending: &schedOp{kind: "start"}}
+	s.threads = append(s.threads, t)
+	fr := s.fr
+	go func() {
+		select {
+		case <-t.grant:
+		case <-s.dead:
+			return
+		}
+		defer func() {
+			if r := recover(); r != nil {
+				t.pending = &schedOp{kind: "panic", pv: r}
+			} else {
+				t.pending = &schedOp{kind: "done"}
+			}
+			select {
+			case s.report <- t:
+			case <-s.dead:
+			}
+		}()
+		call(fr.i, fr, token.NoPos, fn, args)
+	}()
+	return t
+}
+
+func runSession(fr *frame, fns []value) value {
 	if E.sched != nil {
-		panic(pathUnsupported{"nested verifrt.Interleave"})
+		panic(pathUnsupported{"nested scheduling session"})
 	}
-	s := &scheduler{report: make(chan *schedThread), locks: map[*value]*lockState{}, dead: make(chan struct{})}
+	s := &scheduler{report: make(chan *schedThread), locks: map[*value]*lockState{}, wgs: map[*value]int64{}, dead: make(chan struct{}),
+		maxPreempt: E.preemptBound, fr: fr}
 	E.sched = s
 	defer func() {
 		E.sched = nil
 		close(s.dead)
 	}()
-	fns, ok := a[0].([]value)
-	if !ok {
-		fns = a
+	for _, fn := range fns {
+		s.spawn(fn, nil)
 	}
-	for i, fn := range fns {
-		t := &schedThread{id: i, grant: make(chan struct{})}
-		s.threads = append(s.threads, t)
-		f := fn
-		go func() {
-			select {
-			case <-t.grant:
-			case <-s.dead:
-				return
-			}
-			defer func() {
-				if r := recover(); r != nil {
-					t.pending = &schedOp{kind: "panic", pv: r}
-				} else {
-					t.pending = &schedOp{kind: "done"}
-				}
-				select {
-				case s.report <- t:
-				case <-s.dead:
-				}
-			}()
-			call(fr.i, fr, token.NoPos, f, nil)
-		}()
-	}
-	// run one thread until its next report
 	step := func(t *schedThread) {
 		s.cur = t
+		s.last = t
 		t.grant <- struct{}{}
 		r := <-s.report
 		s.cur = nil
@@ -156,10 +194,6 @@ func rtInterleave(fr *frame, a []value) value {
 			r.done = true
 			r.pending = nil
 		}
-	}
-	// start every thread: each runs up to its first synchronisation point
-	for _, t := range s.threads {
-		step(t)
 	}
 	for {
 		var en []*schedThread
@@ -181,15 +215,133 @@ func rtInterleave(fr *frame, a []value) value {
 			if E.checkSat("") == "sat" {
 				m = E.model()
 			}
-			panic(pathViolation{Violation{Kind: "assert", Msg: "deadlock: every unfinished logical thread waits for a lock", Model: m, Prefix: append([]bool{}, E.trace...)}})
+			panic(pathViolation{Violation{Kind: "assert", Msg: "deadlock: every unfinished logical thread waits (lock, WaitGroup or channel)", Model: m, Prefix: append([]bool{}, E.trace...)}})
 		}
-		pick := en[0]
-		if len(en) > 1 {
-			s.nsched++
-			k := rtChoice(fr, []value{fmt.Sprintf("sched%d", s.nsched), len(en)}).(int)
-			pick = en[k]
+		// default order: the last-run thread first if it can continue, then round-robin by thread id after it
+		lastID := -1
+		if s.last != nil {
+			lastID = s.last.id
+		}
+		n := len(s.threads)
+		var order []*schedThread
+		for off := 0; off < n; off++ {
+			t := s.threads[(lastID+off+n)%n]
+			if lastID < 0 {
+				t = s.threads[off]
+			}
+			if !t.done && s.enabled(t) {
+				order = append(order, t)
+			}
+		}
+		pick := order[0]
+		if len(order) > 1 {
+			if s.maxPreempt < 0 {
+				s.nsched++
+				pick = order[rtChoice(fr, []value{fmt.Sprintf("sched%d", s.nsched), len(order)}).(int)]
+			} else {
+				left := s.maxPreempt - s.preempts
+				if left > len(order)-1 {
+					left = len(order) - 1
+				}
+				if left > 0 {
+					s.nsched++
+					k := rtChoice(fr, []value{fmt.Sprintf("sched%d", s.nsched), left + 1}).(int) // number of delays spent here
+					s.preempts += k
+					pick = order[k]
+				}
+			}
 		}
 		s.apply(pick)
 		step(pick)
 	}
+}
+
+func rtInterleave(fr *frame, a []value) value {
+	fns, ok := a[0].([]value)
+	if !ok {
+		fns = a
+	}
+	return runSession(fr, fns)
+}
+
+// ---------------------------------------------------------------------------------------------------------
+// sync.WaitGroup, sync.Map and `go` inside a session
+
+func wgCell(p value) *value { return p.(*value) }
+
+func wgAdd(fr *frame, a []value) value {
+	if !inSession() {
+		return nil
+	}
+	syncPoint("atomic", nil)
+	s := E.sched
+	s.wgs[wgCell(a[0])] += asInt64(a[1])
+	if s.wgs[wgCell(a[0])] < 0 {
+		panic(runtimeErr("sync: negative WaitGroup counter"))
+	}
+	return nil
+}
+
+func wgDone(fr *frame, a []value) value {
+	return wgAdd(fr, []value{a[0], int64(-1)})
+}
+
+func wgWait(fr *frame, a []value) value {
+	if !inSession() {
+		return nil
+	}
+	syncPoint("wgwait", wgCell(a[0]))
+	return nil
+}
+
+// sync.Map with concrete keys: one Go map per sync.Map object and path
+func smap(p value) map[any]value {
+	cell := p.(*value)
+	m := E.syncMaps[cell]
+	if m == nil {
+		m = map[any]value{}
+		E.syncMaps[cell] = m
+	}
+	return m
+}
+
+func smKey(v value) any {
+	if i, ok := v.(iface); ok {
+		switch k := i.v.(type) {
+		case string, int, int64, int32, bool:
+			return k
+		}
+	}
+	panic(pathUnsupported{"sync.Map key that is not a concrete string / integer"})
+}
+
+func smLoadOrStore(fr *frame, a []value) value {
+	syncPoint("atomic", nil)
+	m := smap(a[0])
+	k := smKey(a[1])
+	if v, ok := m[k]; ok {
+		return tuple{v, true}
+	}
+	m[k] = a[2]
+	return tuple{a[2], false}
+}
+
+func smLoad(fr *frame, a []value) value {
+	syncPoint("atomic", nil)
+	if v, ok := smap(a[0])[smKey(a[1])]; ok {
+		return tuple{v, true}
+	}
+	return tuple{iface{}, false}
+}
+
+func smStore(fr *frame, a []value) value {
+	syncPoint("atomic", nil)
+	smap(a[0])[smKey(a[1])] = a[2]
+	return nil
+}
+
+func smDelete(fr *frame, a []value) value {
+	syncPoint("atomic", nil)
+	delete(smap(a[0]), smKey(a[1]))
+	return nil
 }
